@@ -34,7 +34,7 @@ Proof.
   - destruct (_ || _).
     + unfold is_domain_string in H. destruct (canon_val s) as [n|] eqn:E; [|discriminate].
       apply canon_val_spec in E. subst s. apply (digits_no_char _ _ nul_not_digit). apply n_to_dec_digits.
-    + destruct (p =? protocol_internal); [exact H|discriminate].
+    + destruct (p =? protocol_internal); [apply andb_true_iff in H as [H _]; exact H|discriminate].
 Qed.
 
 Lemma ccid_id_no_nul c : ccid_valid c = true -> key_str_ok (c_cp c) = true /\ key_str_ok (ccid_id c) = true.
